@@ -1,7 +1,56 @@
+/-
+  C06 (graceful shutdown is complete, bounded and final)
+  on the engine model (Gnet/Model/Engine.lean). Small-step statements hold in every reachable
+  state: any number of loops, ticker on or off, any interleaving of accepts, traffic, peer
+  closes, shutdown requests from any source (also several racing), and the steps of the
+  `stop` goroutine, the loops and the ticker.
+-/
 import Gnet.Model.Engine
+import Gnet.Proofs.Engine
 namespace Gnet.Props.C06
 open Gnet.Engine
 
-theorem never_started_validate : api .never .validate = .empty := by decide
+/-- COMPLETE: once the shutdown flag is set every loop and the ticker have exited, every
+    connection that was opened has received its OnClose, and OnShutdown ran exactly once -/
+theorem shutdown_complete (s : State) (h : Reachable s) (hs : s.inShutdown = true) :
+    (∀ l ∈ s.loops, l.st = .exited ∧ l.conns = []) ∧ s.tickerAlive = false ∧
+    s.trace.count .shutdown = 1 ∧ openIn s.trace = [] :=
+  Proofs.Engine.shutdown_complete s h hs
+
+/-- `Run` returns only after the flag is set -/
+theorem run_returns_after_flag (s : State) (h : Reachable s) (hr : s.stopPc = .returned) : s.inShutdown = true :=
+  Proofs.Engine.run_returns_after_flag s h hr
+
+/-- FINAL: after `Run` has returned no step of any goroutine invokes a callback any more -/
+theorem final (s : State) (h : Reachable s) (hr : s.stopPc = .returned) (a : Step) :
+    (step s a).trace = s.trace :=
+  Proofs.Engine.final s h hr a
+
+/-- OnShutdown never runs twice, and connections are opened once and closed at most once -/
+theorem callbacks_once (s : State) (h : Reachable s) :
+    s.trace.count .shutdown ≤ 1 ∧
+    (∀ c, s.trace.count (.open c) ≤ 1 ∧ s.trace.count (.close c) ≤ s.trace.count (.open c)) ∧
+    (openIn s.trace).Perm (s.loops.flatMap (·.conns)) :=
+  Proofs.Engine.callbacks_once s h
+
+/-- BOUNDED (as absence of stuck states): once shutdown has been requested there is always a
+    continuation in which `Run` returns; its length is bounded by the work left -/
+theorem shutdown_terminates (s : State) (h : Reachable s) (hc : s.ctxCancelled = true) :
+    ∃ steps, (run s steps).stopPc = .returned ∧
+      steps.length ≤ 8 + 3 * s.loops.length + (s.loops.map (·.conns.length)).sum :=
+  Proofs.Engine.shutdown_terminates s h hc
+
+/-- a Shutdown action inside a callback leads to a shutdown request: the exiting loop itself
+    cancels the context -/
+theorem action_shutdown_requests (s : State) (l : Nat) (x : Loop) (hx : s.loops[l]? = some x)
+    (hc : x.st = .closing) (he : x.conns = []) : (step s (.loopExit l)).ctxCancelled = true :=
+  Proofs.Engine.action_shutdown_requests s l x hx hc he
+
+-- non-vacuity: a life with two loops, a connection on each, a shutdown by action on loop 0
+example : let s := run (init 2 true) [.accept 0, .accept 1, .traffic 1 1, .actionShutdown 0, .closeOne 0, .loopExit 0,
+      .stopper, .stopper, .stopper, .runSentinel 1, .closeOne 1, .loopExit 1, .tickerExit, .stopper, .stopper, .stopper]
+    (s.inShutdown, s.stopPc, s.trace) =
+      (true, StopPc.returned, [.open 0, .open 1, .traffic 1, .close 0, .shutdown, .close 1]) := by decide
 
 end Gnet.Props.C06
+
